@@ -12,6 +12,7 @@ import numpy
 from .statevectorevolution import StateVectorEvolution
 from ..hilbertspace.statevector import StateVector
 from ..hilbertspace.evolutionoperator import EvolutionOperator
+from ...core.managers import energy_units
 #from ... import REAL
 
 
@@ -75,26 +76,29 @@ class StateVectorPropagator:
         
         
         """
-        # The rotating frame is tied to absolute time. The initial state is
-        # the state at the first point of the time axis; it is brought into
-        # the rotating frame there (no change if the axis starts at zero)
-        if self.ham.has_rwa:
-            psii = self._initial_state_in_RWA(psii)
+        # the propagation works with numbers in internal units, whatever
+        # units are current for the caller
+        with energy_units("int"):
+            # The rotating frame is tied to absolute time. The initial state is
+            # the state at the first point of the time axis; it is brought into
+            # the rotating frame there (no change if the axis starts at zero)
+            if self.ham.has_rwa:
+                psii = self._initial_state_in_RWA(psii)
 
-        if hfce is not None:
+            if hfce is not None:
             
-            # propagation with the Hamiltonian defined through a function
+                # propagation with the Hamiltonian defined through a function
             
-            if nonlinear:
-                # non-linear version
-                return self._propagate_short_exp_nonlin(psii, hfce, L=L)
+                if nonlinear:
+                    # non-linear version
+                    return self._propagate_short_exp_nonlin(psii, hfce, L=L)
                 
-            else:
-                # just time dependence
-                return self._propagate_short_exp_tdep(psii, hfce, L=L)
+                else:
+                    # just time dependence
+                    return self._propagate_short_exp_tdep(psii, hfce, L=L)
 
-        # standard propagation with time independent Hamiltonian      
-        return self._propagate_short_exp(psii, L=L)
+            # standard propagation with time independent Hamiltonian      
+            return self._propagate_short_exp(psii, L=L)
         
         
     def _initial_state_in_RWA(self, psii):
